@@ -110,7 +110,7 @@ static void stage_utf8(Run &R) {
 static void stage_bounded(Run &R) {
     static const std::vector<Bytes> AL = {"a", ".", "\"", "\\", " ", "\x01", "\xD0\x96", "\xE2\x82\xAC", "\xF0\x90\x8D\x88", "\x80", "\xC3"};
     const int K = (int) AL.size();
-    int maxlen = R.a.thorough ? 7 : 6;
+    int maxlen = R.a.thorough ? 8 : 6;
     uint64_t total = 0, idx = 0;
     std::vector<int> d(maxlen, 0);
     for (int len = 1; len <= maxlen; len++) {
